@@ -68,6 +68,11 @@ enum WinOp {
     /// close, then open an *enhanced* window whose verifier belongs to another passcode
     /// (`C02Case::passcode2`)
     CloseReopenOther,
+    /// nothing is closed: the datagram that triggers this is held back until 50 ms after the
+    /// current window's expiry, and 10 ms after the expiry - before anybody has polled it - the
+    /// application opens an enhanced window for another passcode (`C02Case::passcode2`), which
+    /// the node may refuse (the expired window is still in place) or accept
+    OpenOtherOverExpired,
 }
 
 #[derive(Debug, Clone, Serialize, Deserialize)]
@@ -162,6 +167,23 @@ fn case_strategy() -> impl Strategy<Value = C02Case> {
                 seed,
             },
         )
+        .prop_flat_map(|c| {
+            // one case in eight becomes the expiry race: an honest handshake started shortly
+            // before the window runs out, whose Pake2 (or Pake3) is on the wire across the expiry
+            // while the application opens a window for another passcode
+            prop_oneof![
+                7 => Just(c.clone()),
+                1 => (20i32..4000, prop::sample::select(vec![OP_PAKE2, OP_PAKE3, OP_PBKDF_RESP]), any::<bool>()).prop_map(move |(before_ms, opcode, second)| {
+                    let mut c = c.clone();
+                    c.inits = vec![Init { passcode: if second { Passcode::Second } else { Passcode::Right }, start: Start::AroundExpiry(-before_ms) }];
+                    c.events = vec![WindowEvent { opcode, nth: 0, op: WinOp::OpenOtherOverExpired }];
+                    c.mutation = None;
+                    c.warmup = false;
+                    c.plan = Plan::default();
+                    c
+                }),
+            ]
+        })
 }
 
 fn dev_comm(passcode: u32) -> BasicCommData {
@@ -222,6 +244,10 @@ struct Shared {
     seen: HashMap<u8, u8>,
     /// window operations requested by the adversary hook, executed by the main loop
     pending_ops: Vec<WinOp>,
+    /// operations to execute at a given virtual time
+    timed_ops: Vec<(u64, WinOp)>,
+    /// expiry of the window the harness opened last (0 = none / closed by the harness)
+    expiry: u64,
     /// payloads of the warm-up handshake per opcode (for replay)
     recorded: HashMap<u8, Vec<u8>>,
     recording: bool,
@@ -286,6 +312,7 @@ fn check(case: &C02Case) -> Case {
             let mut sh = shared.borrow_mut();
             let decoded = mutate::payload_offset(&s.bytes);
             let mut bytes = s.bytes.clone();
+            let mut hold: Option<u64> = None;
             if let Some((w, _off)) = &decoded {
                 if w.proto_id == PROTO_ID_SECURE_CHANNEL {
                     let n = sh.seen.entry(w.opcode).or_insert(0);
@@ -296,7 +323,16 @@ fn check(case: &C02Case) -> Case {
                     } else {
                         for e in &events {
                             if e.opcode == w.opcode && e.nth == nth {
-                                sh.pending_ops.push(e.op.clone());
+                                if matches!(e.op, WinOp::OpenOtherOverExpired) {
+                                    let now = clock::now();
+                                    if sh.expiry > now && sh.expiry - now < 20 * SEC && hold.is_none() {
+                                        let at = sh.expiry;
+                                        sh.timed_ops.push((at + 10 * MS, e.op.clone()));
+                                        hold = Some(at + 50 * MS - now);
+                                    }
+                                } else {
+                                    sh.pending_ops.push(e.op.clone());
+                                }
                             }
                         }
                         if let Some(m) = &mutation {
@@ -316,6 +352,9 @@ fn check(case: &C02Case) -> Case {
             }
             if sh.recording {
                 return vec![(0, bytes)];
+            }
+            if let Some(us) = hold {
+                return vec![(us, bytes)];
             }
             let d = if s.src == 0 { 0 } else { 1 };
             let i = idx[d];
@@ -346,6 +385,7 @@ fn check(case: &C02Case) -> Case {
     let mut dev_pase: Vec<Option<(u64, rs_matter::transport::session::verif::SessionSnapshot)>> = vec![None; n_init];
     let mut dev_reserved_at_end = 0usize;
     let mut failures: Vec<String> = Vec::new();
+    let mut opened_over_expired = false;
 
     let sample = |device: &Matter, adv_samples: &mut Vec<(u64, bool, bool)>,
                   dev_pase: &mut Vec<Option<(u64, rs_matter::transport::session::verif::SessionSnapshot)>>| {
@@ -515,6 +555,10 @@ fn check(case: &C02Case) -> Case {
                 deadline = deadline.min(starts[started].0);
             }
             deadline = deadline.min(next_sample);
+            if let Some(t) = shared.borrow().timed_ops.iter().map(|(t, _)| *t).min() {
+                deadline = deadline.min(t.max(clock::now()));
+            }
+            shared.borrow_mut().expiry = spans.last().map(|l| if l.closed_at.is_some() { 0 } else { l.expiry }).unwrap_or(0);
             let st = ex.run_until(deadline, || !shared.borrow().pending_ops.is_empty());
             if st == Stop::PollLimit {
                 stop_reason = Some("poll watchdog".to_string());
@@ -538,6 +582,22 @@ fn check(case: &C02Case) -> Case {
                 if matches!(op, WinOp::CloseReopenOther) {
                     if let Err(e) = open_other_window(&device, &mut spans) {
                         failures.push(e);
+                    }
+                }
+            }
+            // timed operations that are due
+            let due: Vec<WinOp> = {
+                let mut sh = shared.borrow_mut();
+                let now = clock::now();
+                let (due, later): (Vec<_>, Vec<_>) = std::mem::take(&mut sh.timed_ops).into_iter().partition(|(t, _)| *t <= now);
+                sh.timed_ops = later;
+                due.into_iter().map(|(_, op)| op).collect()
+            };
+            for op in due {
+                if matches!(op, WinOp::OpenOtherOverExpired) {
+                    // (refused with Busy while the expired window is still in place: fine)
+                    if open_other_window(&device, &mut spans).is_ok() {
+                        opened_over_expired = true;
                     }
                 }
             }
@@ -585,6 +645,9 @@ fn check(case: &C02Case) -> Case {
     let sh = shared.borrow();
     let mut labels: Vec<String> = Vec::new();
     let mut nontrivial = false;
+    if case.events.iter().any(|e| matches!(e.op, WinOp::OpenOtherOverExpired)) {
+        labels.push(if opened_over_expired { "expiry-race:window-opened-over-the-expired-one" } else { "expiry-race:opening-refused-or-not-reached" }.into());
+    }
 
     // Decode the tap: original datagrams and first consumed copy per (receiver, sender, counter)
     struct Orig {
